@@ -152,5 +152,19 @@ func VerifC13History() {
 			vf.Reach("reset")
 		}
 	}
+	// closing phase: a query changes nothing, so asking twice gives the same answer
+	wantReq, wantRes := 0, 0
+	for _, v := range vs {
+		wantReq += v.reqFail
+		wantRes += v.resFail
+	}
+	for k := 0; k < 2; k++ {
+		vf.WatchOn()
+		nq := flatCount(m.VerifyRequests(), "closing-request-query")
+		nr := flatCount(m.VerifyResponses(), "closing-response-query")
+		vf.WatchOff()
+		vf.Assert(nq == wantReq, "repeated-request-query:one-error-per-unmet-expectation-since-reset")
+		vf.Assert(nr == wantRes, "repeated-response-query:one-error-per-unmet-expectation-since-reset")
+	}
 	vf.Reach("done")
 }
